@@ -3,6 +3,7 @@ import MosnVerif.Lemmas.FrameRefine
 import MosnVerif.Model.FrameSpec
 import MosnVerif.Lemmas.FrameH2
 import MosnVerif.Lemmas.FrameHpack
+import MosnVerif.Lemmas.HpackAt
 /-!
 # C08 — malformed input is contained (property theorems only)
 
@@ -93,6 +94,40 @@ theorem hpack_string_bounded (maxStrLen : Nat) (p s r : Bytes)
     (h : MosnVerif.Model.FrameHpack.readString maxStrLen p = .ok s r) :
     s.length + r.length < p.length ∧ (maxStrLen ≠ 0 → s.length ≤ maxStrLen) :=
   MosnVerif.Model.FrameHpack.readString_bounded maxStrLen p s r h
+
+/-- **hpack_at_no_oob**: `hpack.Decoder.at` — its comparisons, the integer type each is made in (uint64 vs int), its
+conversions and its two index expressions regenerated from hpack.go (Gen/HpackAt) and evaluated with checked access —
+never indexes outside the static or the dynamic table, for EVERY value of its uint64 argument (every index `readVarInt`
+can deliver, 2^63 and above included) and every dynamic table: it returns an entry, or no entry (`InvalidIndexError`)
+exactly for 0 and for indices beyond the last entry; and the entry is the one of `Model/HpackTable.Dec.at` (the lookup
+the table-synchronisation theorems of C18 are about).  (`length + 61 < 2^63`: Go slice lengths are ints.) -/
+theorem hpack_at_no_oob (d : MosnVerif.Model.HpackTable.Dec) (i : Nat) (hi : i < 2 ^ 64)
+    (hlen : d.tab.ents.length + MosnVerif.Model.HpackTable.staticLen < 2 ^ 63) :
+    MosnVerif.Model.HpackAt.lookup d i ≠ .oob ∧
+    (MosnVerif.Model.HpackAt.lookup d i = .none ↔ (i = 0 ∨ d.tab.ents.length + MosnVerif.Model.HpackTable.staticLen < i)) ∧
+    MosnVerif.Model.HpackAt.lookup d i = MosnVerif.Model.HpackAt.Look.ofOption (d.at i) :=
+  ⟨MosnVerif.Lemmas.HpackAt.lookup_no_oob d i hi hlen, MosnVerif.Lemmas.HpackAt.lookup_none_iff d i hi hlen,
+   MosnVerif.Lemmas.HpackAt.lookup_eq d i hi hlen⟩
+
+/-- the same at the level of the regenerated function: every uint64 against table lengths `sl`, `dl` -/
+theorem hpack_at_spec (sl dl i : Int) (hs : 0 ≤ sl) (hd : 0 ≤ dl) (hsum : sl + dl < 2 ^ 63) (hi0 : 0 ≤ i) (hi : i < 2 ^ 64) :
+    MosnVerif.Gen.HpackAt.tableAt sl dl i =
+      if i = 0 ∨ sl + dl < i then .none
+      else if i ≤ sl then .entry .static (i - 1).toNat else .entry .dyn (dl - (i - sl)).toNat :=
+  MosnVerif.Lemmas.HpackAt.tableAt_spec sl dl i hs hd hsum hi0 hi
+
+-- the maximal 10-byte varint `ff ff ff ff ff ff ff ff ff 7f` (2^63 + 126) and 2^64 - 1 are refused, 61 / 62 are the last
+-- static and the newest dynamic entry
+example : MosnVerif.Gen.HpackAt.tableAt 61 3 9223372036854775934 = .none := by decide
+example : MosnVerif.Gen.HpackAt.tableAt 61 3 18446744073709551615 = .none := by decide
+example : MosnVerif.Gen.HpackAt.tableAt 61 3 61 = .entry .static 60 := by decide
+example : MosnVerif.Gen.HpackAt.tableAt 61 3 62 = .entry .dyn 2 := by decide
+example : MosnVerif.Gen.HpackAt.tableAt 61 3 64 = .entry .dyn 0 := by decide
+example : MosnVerif.Gen.HpackAt.tableAt 61 3 65 = .none := by decide
+-- the class the theorem excludes: the static-table test made on `int(i)` sends every index ≥ 2^63 into
+-- `staticTable.ents[i-1]` — out of range
+example : MosnVerif.Gen.HpackAt.chkIdx .static 61 (MosnVerif.Gen.HpackAt.wrapU64 (9223372036854775934 - 1)) = .oob ∧
+    decide (MosnVerif.Gen.HpackAt.wrapS64 9223372036854775934 ≤ 61) = true := by decide
 
 def toOutcome : Out → Outcome
   | .needMore => .needMore 0
